@@ -90,14 +90,16 @@ def cases(ctx):
         for pos in ("first", "middle", "last", "only"):
             yield ("big", L, pos)
     for i in range(4):
-        yield ("extra", i)
+        for form in ("list", "tuple", "iter", "generator"):
+            yield ("extra", i, form)
 
 
-def check(o, conf, extra=()):
+def check(o, conf, extra=(), extra_form="list"):
     exp = T.expected_ops(conf)
     try:
         live = dict(conf)          # ONE dictionary object handed to every call, as a caller would
-        extra_live = list(extra)
+        # the parameter is declared Iterable[bytes]: lists, tuples, iterators and generators must all be honoured
+        extra_live = {"list": list(extra), "tuple": tuple(extra), "iter": iter(list(extra)), "generator": (b for b in list(extra))}[extra_form]
         blocks_direct = conf_dict_to_tlv(live)
         f = Bf3File({}, [])
         if extra:
@@ -125,6 +127,10 @@ def check(o, conf, extra=()):
         return o.viol("blob|%s" % ("empty-first-block" if blob[:1] == b"\x00" and len(blob) > 1 and first_over else "framing"),
                       "blob is not length-prefixed blocks closed by a single 00: %s" % b)
     n_extra = len(extra)
+    if n_extra and len(blocks) != len(blocks_direct) + n_extra:
+        o.cls = "extra-blocks-lost"
+        return o.viol("extra|missing", "%d caller-supplied extra blocks (given as %s) but the blob has %d blocks for %d own ones" % (
+            n_extra, extra_form, len(blocks), len(blocks_direct)))
     own = blocks[:len(blocks) - n_extra] if n_extra else blocks
     if n_extra and blocks[len(blocks) - n_extra:] != list(extra):
         o.viol("extra|changed", "caller-supplied extra blocks do not follow unchanged")
@@ -222,8 +228,9 @@ def run_case(ctx, case):
         extras = [[b"\x01\x00\x09\x01\x01\xAA"], [b"\x02\x12\x34", bytes(range(1, 256))], [bytes([7]) * 117],
                   [b"\x01\x00\x09\x01\x00", b"\x02\xFF\xFF"]][i]
         conf = {(0x0001, 0x01): b"\x11", (0x0002, None): None}
-        o = check(Outcome("ok", True), conf, tuple(extras))
-        o2 = check(Outcome("ok", True), {}, tuple(extras))
+        form = case[2] if len(case) > 2 else "list"
+        o = check(Outcome("ok", True), conf, tuple(extras), form)
+        o2 = check(Outcome("ok", True), {}, tuple(extras), form)
         o.viols += o2.viols
         return o
     raise ValueError(case)
